@@ -84,7 +84,10 @@ func c08Check(env *core.Env, cc core.Case) core.Verdict {
 		single = func(key string) []string { return []string{"-o", "github", "regex", "compare", key} }
 	}
 	ra_ := cli(env, rootA, nil, allArgs...)
-	if ra_.Class() == sut.ClassFault || ra_.Class() == sut.ClassTimeout {
+	if ra_.Class() == sut.ClassTimeout {
+		return core.Incon("watchdog hit, not judged: %s", describe(ra_))
+	}
+	if ra_.Class() == sut.ClassFault {
 		return core.Viol("crash", "%v crashed: %s", allArgs, describe(ra_))
 	}
 	snapA := snap(rootA)
@@ -112,7 +115,10 @@ func c08Check(env *core.Env, cc core.Case) core.Verdict {
 				continue
 			}
 			r := cli(env, rootB, nil, single(units[i])...)
-			if r.Class() == sut.ClassFault || r.Class() == sut.ClassTimeout {
+			if r.Class() == sut.ClassTimeout {
+				return core.Incon("watchdog hit, not judged: %s", describe(r))
+			}
+			if r.Class() == sut.ClassFault {
 				return core.Viol("crash", "%v crashed: %s", single(units[i]), describe(r))
 			}
 			if r.Exit != 0 {
